@@ -175,3 +175,17 @@ def gen(shard, rng, tier):
                 c["x"]["nonhex"] = True
                 c["steps"][0]["cli"]["ent"]["CAP"] = 2000
                 yield c
+
+
+def extra_phases(ctx, tier, seed):
+    """Thorough tier: the worker threads under ThreadSanitizer (nightly, -Zbuild-std): 20 searches at -j 16."""
+    if tier != "thorough":
+        return {}, []
+    from ..run import core, sanitize
+    rng = core.rng_for(seed, ID, "tsan")
+    specs = []
+    for i in range(20):
+        d = rng.choice("0123456789abcdefABCDEF")
+        specs.append({"argv": ["new", "--vanity-prefix", "0x" + d, "-j", "16"], "ent": {"MODE": "pass", "CAP": 800, "DELAY": _rand_delay(rng, 16)}})
+    summ, viol = sanitize.tsan_vanity(specs, ctx.run_dir, ctx.bins.get("interposer"))
+    return {"sanitizers": [summ], "evaluations": summ["executions"], "buckets": {"sanitizer-executions:ThreadSanitizer": summ["executions"]}}, viol
